@@ -74,7 +74,7 @@ def build_jobs(tier):
     texts += F.f_rule_siblings(ops, consts=(0, 1))[:: (4 if tier == "quick" else 1)]
     texts += F.f_rule_triples(both)[:: (4 if tier == "quick" else 1)]
     texts += F.deep_stack_blocks()
-    texts += F.f_rule_existing()[:: (24 if tier == "quick" else 3)]
+    texts += F.f_rule_existing()[:: (96 if tier == "quick" else 3)]
     texts += F.f_mem_consuming()
     texts += F.f_keccak_pairs()[:: (2 if tier == "quick" else 1)]
     # opcodes the folding code names in lower case only (the AST extraction of rule opcodes does not see them): two- and
@@ -82,7 +82,7 @@ def build_jobs(tier):
     texts += F.f_rule_singles(["SAR", "SMOD", "BYTE", "SIGNEXTEND", "ADDMOD", "MULMOD", "MOD"], contexts=("stack",))[:: (6 if tier == "quick" else 1)]
     texts += F.f_long_partition(lengths=(23, 31), max_stores=2)[:: (8 if tier == "quick" else 1)]
     texts += F.f_rule_singles(ops, contexts=("both", "bothstore"))[:: (9 if tier == "quick" else 1)]
-    texts += F.f_rule_pairs(both, consts=[0, 1], contexts=("both",))[:: (18 if tier == "quick" else 1)]
+    texts += F.f_rule_pairs(both, consts=[0, 1], contexts=("both",))[:: (36 if tier == "quick" else 1)]
     texts += F.f_mid_terminal()[:: (3 if tier == "quick" else 1)]
     # MSIZE observes memory expansion: removing a dead load or hash before it is visible
     texts += ["PUSH ffff MLOAD POP MSIZE", "MSIZE PUSH ffff MLOAD POP MSIZE", "DUP1 MLOAD POP MSIZE", "PUSH 20 DUP2 KECCAK256 POP MSIZE",
@@ -110,9 +110,9 @@ def main():
     ndocs = len(docs) if tier == "thorough" else 8
     tasks = []
     # the Max-SMT back ends cost ~0.3 s per block (solver process): they get a fixed stride of the templates;
-    # quick: only the default option set sees every template, the other greedy sets a quarter each
+    # quick: only the default option set sees every template, the other greedy sets a sixth each
     stride = {"quick": 90, "thorough": 12}[tier]
-    gstride = {"quick": 4, "thorough": 1}[tier]
+    gstride = {"quick": 6, "thorough": 1}[tier]
     for k, o in enumerate(optsets):
         if o["backend"] == "greedy":
             g = 1 if k == 0 else gstride
@@ -120,7 +120,7 @@ def main():
         else:
             jobs = [("text", t) for i, t in enumerate(texts) if i % stride == k % stride or len(t.split()) <= 2]
         # real documents: every option set sees a different rotating slice of documents in quick mode
-        dsel = docs[:ndocs] if tier == "thorough" else [docs[(k * 2 + i) % len(docs)] for i in range(2)]
+        dsel = docs[:ndocs] if tier == "thorough" else [docs[(k * 2 + i) % len(docs)] for i in range(2 if o["backend"] == "greedy" else 1)]
         for d in dsel:
             for lo in range(0, per_doc if o["backend"] == "greedy" else (per_doc // 2 if tier == "quick" else 20), 20):
                 jobs.append(("doc", d, lo, lo + 20))
